@@ -30,7 +30,7 @@ SEEDS = {
  'C18-1': ('/tmp/wt_C18', 1, 'C18', 'a USD dividend row with a negative net amount (reversal)', {}, 'sign handling / cash conservation is a value-level clause of C18 that is not decided statically'),
  'C18-2': ('/tmp/wt_C18', 2, 'C18', 'an --account pattern anchored with ^ on the documented account string', {}, 'option filtering is outside the claimed structural clause (cells found under named headers)'),
  'C20-1': ('/tmp/wt_C20', 1, 'C20', 'a statement whose table is on a page numbered below an already loaded page (two cooperating sites)', {'C20': ['popped-page-is-yielded']}, 'caught after rules R20c/R20d (popped page is yielded; requested pages are loaded unfiltered) were added'),
- 'C20-2': ('/tmp/wt_C20', 2, 'C20', 'two or more holdings where a later one rounds to 100.0% with a multi-line description', {}, 'the allocation-table text parser is not decided statically'),
+ 'C20-2': ('/tmp/wt_C20', 2, 'C20', 'two or more holdings where a later one rounds to 100.0% with a multi-line description', {'C20': ['unfinishable-total-like-line-joins-the-security']}, 'caught after rule R20g was added in the third seeding round (the same change came back as C20-6)'),
 
  'C01-1': ('/tmp/wt_C01', 1, 'C01', 'a non-CAD trade whose commission currency is explicitly CAD with no commission rate', {'C01': ['R1e']}, 'caught after rule R1e (a named currency is never dropped) was added'),
  'C01-2': ('/tmp/wt_C01', 2, 'C01', 'a sale whose commission exceeds its gross proceeds', {'C01': ['R1f|no-clamping|capital-gain|Sell']}, 'caught after rule R1f (no clamping on the way to a cost base or gain) was added'),
@@ -107,6 +107,26 @@ SEEDS = {
  'C09-6': ('/tmp/wt3_C09', 2, 'C09', 'a denied loss shared by three affiliates with non-terminating ratios', {'C09': ['split_adjustment_amount|consume']}, ''),
  'C10-5': ('/tmp/wt3_C10', 1, 'C10', '--summarize-annual-gains and a year netting to zero (same idea as C10-1)', {'C10': ['one-sale-per-summarised-year']}, ''),
  'C10-6': ('/tmp/wt3_C10', 2, 'C10', 'a forced zero ("0!") on an unsummarisable sale', {'C11': ['R11d|trigger-guard|superficial loss']}, 'seeded against C10, reported by the C11 check (R11c/R11d/R11e)'),
+ 'C11-5': ('/tmp/wt3_C11', 1, 'C11', 'a memo containing a backslash that also needs quoting', {'C11': ['reader-and-writers-use-one-dialect']}, 'caught after rule R11k (no dialect setter on the csv reader / writer builders) was added'),
+ 'C11-6': ('/tmp/wt3_C11', 2, 'C11', 'trade and commission in the same non-CAD currency at different rates (same spot as C11-1 / C10-3, third time)', {'C11': ['commission-currency-exported-whenever-present']}, ''),
+ 'C12-5': ('/tmp/wt3_C12', 1, 'C12', 'a USD row dated 31 December of a leap year', {'C12': ['every-observation-is-kept']}, 'caught after rule R12g (the padding function pushes every downloaded observation) was added'),
+ 'C12-6': ('/tmp/wt3_C12', 2, 'C12', 'a publication gap of more than 7 days with rows on two days inside it, looked up in ascending order', {'C12': ['day-map-insert']}, ''),
+ 'C13-5': ('/tmp/wt3_C13', 1, 'C13', 'a look-back across New Year into a year memoised from a stale cache', {'C13': ['download-guarded-by-year-memo'], 'C12': ['R12b|fx::io::rate_loader::RateLoader::find_usd_cad_preceding_relevant_spot_rate']}, ''),
+ 'C13-6': ('/tmp/wt3_C13', 2, 'C13', 'the CSV cache, a year from 2017 on, a second run (same idea as C13-4, independently)', {'C13': ['cache-stores-rates-losslessly'], 'C06': ['R6a|fx::io::rates_cache::csv::cached_rate_string']}, ''),
+ 'C14-5': ('/tmp/wt3_C14', 1, 'C14', 'a first write killed mid-row; the reader promotes the left-over temp file (third independent occurrence)', {'C14': ['recover_pending_rates_csv_file']}, ''),
+ 'C14-6': ('/tmp/wt3_C14', 2, 'C14', 'a guard struct that fsyncs and renames without flushing the csv writer', {'C14': ['no-rename-into-place']}, ''),
+ 'C15-5': ('/tmp/wt3_C15', 1, 'C15', 'two CSV files with affiliates of one security in different files and a blank-affiliate split', {'C07': ['mutation-between-sort-and-split'], 'C09': ['run_acb_app_to_delta_models']}, 'seeded against C15, reported by the C07 and C09 checks (rows changed between the sort and the split; a list filled in hash order)'),
+ 'C15-6': ('/tmp/wt3_C15', 2, 'C15', 'same edit as C15-1 / C15-3 (third independent occurrence)', {'C15': ['split-factor-recorded-unconditionally']}, ''),
+ 'C16-5': ('/tmp/wt3_C16', 1, 'C16', 'same idea as C16-3 at the call site in approot', {'C16': ['opening-position-handed-on-unchanged']}, ''),
+ 'C16-6': ('/tmp/wt3_C16', 2, 'C16', 'a specification with four or more fields (three next() calls on split)', {'C16': ['specification-has-exactly-three-fields']}, ''),
+ 'C17-5': ('/tmp/wt3_C17', 1, 'C17', 'more than 20 deltas, interleaved securities, a superficial-loss sale whose adjustment goes to the default affiliate', {'C17': ['every-delta-reaches-the-cost-pass']}, 'caught after R17g was extended (the delta list is not re-ordered either)'),
+ 'C17-6': ('/tmp/wt3_C17', 2, 'C17', '--symbol-base and a first transaction of the security by another affiliate', {'C17': ['nothing-recorded-before-the-skip-filters']}, ''),
+ 'C18-5': ('/tmp/wt3_C18', 1, 'C18', 'same edit as C18-4, independently', {'C18': ['no-binary-float-expansion']}, ''),
+ 'C18-6': ('/tmp/wt3_C18', 2, 'C18', 'a blank-headed column inside the table (two cooperating edits)', {'C18': ['R18b|peripheral::broker::questrade::sheet_to_txs']}, ''),
+ 'C19-5': ('/tmp/wt3_C19', 1, 'C19', 'another security sold in the window with exactly the benefit\'s sold-share count', {'C19': ['benefit-with-sold-shares-is-always-matched']}, ''),
+ 'C19-6': ('/tmp/wt3_C19', 2, 'C19', 'same idea as C19-4, independently', {'C19': ['every-parsed-entry-is-collected']}, ''),
+ 'C20-5': ('/tmp/wt3_C20', 1, 'C20', 'a statement of nine or more pages with the table on page 9, 18, ...', {'C20': ['remainder-ranges-cover-every-page']}, 'caught after rule R20h (remainder ranges start at 1, reach num_pages and are contiguous) was added; the corrected windowing is silent'),
+ 'C20-6': ('/tmp/wt3_C20', 2, 'C20', 'same idea as C20-2, independently', {'C20': ['unfinishable-total-like-line-joins-the-security']}, 'caught after rule R20g was added (it now also reports C20-2)'),
 }
 VERIF = os.path.dirname(os.path.dirname(os.path.abspath(__file__)))
 def main(ids):
